@@ -45,7 +45,7 @@ PROPS = {
         "text": "bytes_len = encoded length (proved); returned counts compared with bytes written",
     },
     "C07": {
-        "lean": ["PnaVerif.Props.Consts", "PnaVerif.Props.C07"],
+        "lean": ["PnaVerif.Props.Consts", "PnaVerif.Props.C07", "PnaVerif.Props.C07Solid"],
         "families": ["parse", "entry", "codec", "truncate", "foreign", "hostile-solid"],
         "trusted": COMMON_TRUST,
         "text": "no model read path reaches a panic outcome (proved for all inputs); hostile/mutated/truncated streams through the real readers under catch_unwind",
@@ -60,25 +60,27 @@ PROPS = {
     },
     "C15": {
         "lean": ["PnaVerif.Props.Consts", "PnaVerif.Props.C15"],
-        "families": ["codec", "entry"],
+        "families": ["codec", "entry", "cli-codec"],
         "trusted": COMMON_TRUST,
         "text": "library codecs: dec(enc v) = v under explicit domain predicates (proved); codecs compared through hooks",
     },
     "C01": {
-        "lean": ["PnaVerif.Props.Consts", "PnaVerif.Props.C01"],
+        "lean": ["PnaVerif.Props.Consts", "PnaVerif.Props.C01", "PnaVerif.Props.C07Solid"],
         "families": ["cipher-sm", "roundtrip", "foreign"],
         "trusted": COMMON_TRUST + CRYPTO_TRUST,
         "text": "writer partition independence, reader schedule independence and pipeline round trip proved for every lawful cipher/codec; state machines tied by cipher-sm, end to end by roundtrip",
     },
     "C16": {
         "lean": ["PnaVerif.Props.Consts", "PnaVerif.Props.C16"],
-        "families": ["roundtrip", "foreign"],
+        "families": ["roundtrip", "foreign", "cli-crypt"],
+        "cli": True,
         "trusted": COMMON_TRUST + CRYPTO_TRUST,
         "text": "decision logic of opening an encrypted entry proved; right/wrong/no password sampled through the public API",
     },
     "C08": {
         "lean": ["PnaVerif.Props.Consts", "PnaVerif.Props.C08"],
-        "families": ["roundtrip"],
+        "families": ["roundtrip", "cli-crypt"],
+        "cli": True,
         "trusted": COMMON_TRUST + CRYPTO_TRUST + ["rand/rand_chacha: distinct draws yield distinct values (sampled)"],
         "text": "data-flow structure proved (plaintext only through E / XOR keystream, PHSF without hash, one salt+IV draw per context); leakage and freshness sampled",
     },
